@@ -504,7 +504,7 @@ def _one(arg):
         try: fn()
         except Exception as e:
             recs.append(('X:battery_crash', False, lit, '%s clause group crashed: %s' % (p, traceback.format_exc()[-700:])))
-    if ('C04' in props or 'C06' in props or 'C16' in props or 'C05' in props) and kind in ('BinaryCarver', 'ContinuousCarver', 'Discretizer'):
+    if ('C04' in props or 'C06' in props or 'C16' in props or 'C05' in props or 'C03' in props) and kind in ('BinaryCarver', 'ContinuousCarver', 'Discretizer'):
         # the same clauses on a manually edited object (update_discretizer), as the quantifiers of C04 / C06 say
         try:
             from rtc.c17_edits import candidate_edits
@@ -520,6 +520,10 @@ def _one(arg):
                     try: c04(reload(eo, kind), kind, case, cfg, lambda c, ok, m, ex=None: rec(c + '.after_edit.reloaded_from_json', ok, m, dict(ex or {}, edits=done)))
                     except Exception: recs.append(('C04:transform#post.training_rows_accepted.after_edit.reloaded_from_json', False, lit, 'reload of the edited object raised ' + traceback.format_exc()[-300:]))
                 if 'C06' in props: c06(eo, kind, case, cfg, rec_e, rng)
+                if 'C03' in props:
+                    c03(eo, kind, case, cfg, rec_e)
+                    try: c03(reload(eo, kind), kind, case, cfg, lambda c, ok, m, ex=None: rec(c + '.after_edit.reloaded_from_json', ok, m, dict(ex or {}, edits=done)))
+                    except Exception: pass
                 if 'C05' in props: c05(eo, kind, case, dict(cfg, min_freq_edited=True), rec_e, rng)
                 if 'C16' in props: c16(eo, kind, case, cfg, lambda c, ok, m, ex=None: rec_e(c, ok, m, ex) if 'history' not in c else None)
         except Exception as e:
